@@ -23,7 +23,9 @@ impl of the same name for the same view type **as it is** (sync `to_html()`, `hy
 | `toHtml`                      | `RenderHtml::to_html` (`Position::FirstChild`, `escape = true`)                               |
 | `dom`, `domL`, `domOf`        | the node sequence that HTML denotes, markers included (specification side of `C05_parse_print`) |
 | `hydrateAttr`                 | `Attribute::hydrate::<true>`: no DOM access, the state is the value (value.rs, class.rs, style.rs) |
-| `hydrate`, `hydrateList`      | `RenderHtml::hydrate::<true>` per view type: strings.rs (step; one more `sibling()` when `NextChildAfterText`; cast to `Text`; the retained `str` is the *view's* string, the node's data is not read), tuples.rs (`()` = `next_placeholder`, then `NextChild`), element/mod.rs (`inner_1`: `child()` if `FirstChild`, `sibling()` unless `Current`; cast to `Element` — the tag name is **not** compared; attributes; children only if `Ch::EXISTS && E::ESCAPE_CHILDREN`, from `FirstChild`; `inner_2`: `cursor.set(el)`, `NextChild`), iterators.rs (`Vec`: items, `next_placeholder`, `NextChild`), either.rs / any_view.rs (transparent) |
+| `hydrate`, `hydrateList`      | `RenderHtml::hydrate::<true>` per view type: strings.rs (step; one more `sibling()` when `NextChildAfterText`; cast to `Text`; the retained `str` is the *view's* string, the node's data is not read; the write for the empty string is `settle`), tuples.rs (`()` = `next_placeholder`, then `NextChild`), element/mod.rs (`inner_1`: `child()` if `FirstChild`, `sibling()` unless `Current`; cast to `Element` — the tag name is **not** compared; attributes; children only if `Ch::EXISTS && E::ESCAPE_CHILDREN`, from `FirstChild`; `inner_2`: `cursor.set(el)`, `NextChild`), iterators.rs (`Vec`: items, `next_placeholder`, `NextChild`), either.rs / any_view.rs (transparent) |
+| `settle`, `hydrateDom`, `hydrateDomOld`, `domA` | the `set_text` of the adopted `" "` of an empty string (repair of F-C05-1) and the DOM after hydration; `…Old` = before the repair |
+| `FragState`, `fragParent`, `fragParentOld`, `rebuildFrag`, `runFragHydrated`, `runFragCsr` | view/iterators.rs `StaticVec::{hydrate, rebuild}` for an element with children `pre…, StaticVec(items), post…` (F-C05-3 and its repair) |
 | `Out.created`                 | nodes created by the walk (`native_dom::nodes_created()` before/after): no modelled branch creates one |
 | `IdTree`, `loadTree(s)`       | what the correspondence harness does with the parser's output: one native node per parsed node, created in document order and appended to its parent |
 | `real`, `realL`, `Realises`   | "`d` contains this forest of parsed nodes below `p`" (hypothesis of `C05_hydrate_succeeds`; established for `loadRoot` by `C05_load_realises`); `realB`, `realisesB`, `loadOK` are the executable forms the driver re-evaluates on every case |
@@ -278,6 +280,63 @@ end
 /-- `view.hydrate::<true>(&Cursor::new(root), &PositionState::default())` -/
 def hydrateFrom (d : Dom) (root : Id) (v : View) : Except HydrationError Out :=
   hydrate d v ⟨root, .firstChild⟩
+
+/-! ## the writes of the walk (repair `fix: hydrating an empty string …`, F-C05-1)
+
+strings.rs `hydrate` (after the repair): `if !FROM_SERVER || self.is_empty() { Rndr::set_text(&node, self) }`
+— the adopted placeholder `" "` of an empty string gets the real, empty content.  The write happens
+inside the walk; the walk itself only reads node kinds, child lists and parents, none of which
+`set_text` changes (`hydrate_congr`, `settle_sameShape` in Proofs/HydrateWalk.lean), so the model
+performs the walk (`hydrate`, unchanged: state and cursor) and then the writes (`settle`), in walk
+order.  Before the repair there were no writes: `hydrateDomOld`. -/
+
+mutual
+/-- the `set_text` calls of `hydrate::<true>`, in walk order -/
+def settle : State → Dom → Dom
+  | .text i s, d => if s = "" then d.setText i "" else d
+  | .unit _, d => d
+  | .elem _ _ none, d => d
+  | .elem _ _ (some c), d => settle c d
+  | .tuple sts, d => settleL sts d
+  | .either _ st, d => settle st d
+  | .vec sts _, d => settleL sts d
+  | .any _ st, d => settle st d
+def settleL : List State → Dom → Dom
+  | [], d => d
+  | s :: ss, d => settleL ss (settle s d)
+end
+
+/-- `view.hydrate::<true>(..)` with its effect on the DOM (current code) -/
+def hydrateDom (d : Dom) (root : Id) (v : View) : Except HydrationError (Out × Dom) :=
+  match hydrateFrom d root v with
+  | .ok o => .ok (o, settle o.state d)
+  | .error e => .error e
+
+/-- the same before the repair: the DOM is not touched -/
+def hydrateDomOld (d : Dom) (root : Id) (v : View) : Except HydrationError (Out × Dom) :=
+  match hydrateFrom d root v with
+  | .ok o => .ok (o, d)
+  | .error e => .error e
+
+mutual
+/-- the children of the root after hydration (current code): the parsed nodes, every string view's
+text node holding the string itself -/
+def domA : View → Position → List Dom.Tree
+  | .text s, pos => (if pos = .nextChildAfterText then [.comment ""] else []) ++ [.text s]
+  | .unit, _ => [.comment ""]
+  | .elem tag as c, _ =>
+    [.elem tag ((Html.expectedAttrs (attrsOf as)).map fun a => (String.ofList a.1, String.ofList a.2))
+      (if isVoidT tag then [] else if viewExists c then domA c .firstChild else [])]
+  | .tuple vs, pos => domAL vs pos
+  | .onone, _ => [.comment ""]
+  | .osome v, pos => domA v pos
+  | .either _ _ v, pos => domA v pos
+  | .vec vs, pos => domAL vs pos ++ [.comment ""]
+  | .any _ v, pos => domA v pos
+def domAL : List View → Position → List Dom.Tree
+  | [], _ => []
+  | v :: vs, pos => domA v pos ++ domAL vs (after true v pos)
+end
 
 /-! ## parsed HTML as DOM nodes -/
 
@@ -572,6 +631,93 @@ def nshapeL : List State → List Shape
   | s :: ss => nshape s :: nshapeL ss
 end
 
+/-! ## `StaticVec` (the view behind `Fragment`) among the children of an element
+
+`View` has no constructor for it; the model covers the shape the defect F-C05-3 needs: an element
+whose children are `pre… , StaticVec(items), post…`.  For printing and for the walk a `StaticVec` is
+its items inlined (iterators.rs `to_html_with_buf`, `hydrate`: the items in order, no marker); what
+it adds is the recorded parent element, used by `rebuild`. -/
+
+structure FragState where
+  states : List State
+  parent : Option Id
+  deriving Repr, Inhabited
+
+def elemOpt (d : Dom) (x : Option Id) : Option Id :=
+  match x with
+  | some i => if d.isElement i then some i else none
+  | none => none
+
+/-- `StaticVec::hydrate` after the repair `fix: an empty StaticVec hydrated as the first child …`:
+the items, then `parent` = the cursor's node itself while the position is still `FirstChild`
+(nothing hydrated under this parent yet), its parent element otherwise -/
+def fragParent (d : Dom) (c : Cur) : Option Id :=
+  if c.pos = .firstChild then elemOpt d (some c.node) else elemOpt d (d.getParent c.node)
+
+/-- before the repair: always `cursor.current().parent_element()` -/
+def fragParentOld (d : Dom) (c : Cur) : Option Id := elemOpt d (d.getParent c.node)
+
+/-- `StaticVec::rebuild`: unmount every item, `build` the new list, mount it at the **end** of the
+recorded parent (`expect("parent should always be Some() on a StaticVec rebuild()")`) -/
+def rebuildFrag (vs : List View) (st : FragState) (d : Dom) : Dom × FragState :=
+  let d := unmountList st.states d
+  match st.parent with
+  | none => (d.err "panic: parent should always be Some() on a StaticVec rebuild()", st)
+  | some p =>
+    let (d, sts) := buildList vs d
+    (mountList sts d p none, ⟨sts, some p⟩)
+
+structure FragRun where
+  outcome : Except HydrationError Unit
+  created : Nat
+  kids : List Dom.Tree
+  errs : List String
+  deriving Repr
+
+/-- `<tag>pre… items… post…</tag>` parsed into `ts`, loaded, hydrated, the fragment rebuilt with `itemsB`
+(`old` = before the repair of F-C05-3) -/
+def runFragHydrated (old : Bool) (ts : List HTree) (tag : String) (pre itemsA itemsB post : List View) : FragRun :=
+  let (d, root, _) := loadRoot ts
+  let el := elemTarget d ⟨root, .firstChild⟩
+  if !d.isElement el then ⟨.error (.element tag el), 0, (serializeKids d root).getD [], d.errs⟩ else
+  match hydrateList d pre ⟨el, .firstChild⟩ with
+  | .error e => ⟨.error e, 0, (serializeKids d root).getD [], d.errs⟩
+  | .ok o1 =>
+    match hydrateList d itemsA o1.cur with
+    | .error e => ⟨.error e, 0, (serializeKids d root).getD [], d.errs⟩
+    | .ok o2 =>
+      let parent := if old then fragParentOld d o2.cur else fragParent d o2.cur
+      match hydrateList d post o2.cur with
+      | .error e => ⟨.error e, 0, (serializeKids d root).getD [], d.errs⟩
+      | .ok o3 =>
+        let d := settleL o3.states (settleL o2.states (settleL o1.states d))
+        -- rebuild: the tuple of children, left to right
+        let (d, _) := rebuildList false pre o1.states d
+        let (d, _) := rebuildFrag itemsB ⟨o2.states, parent⟩ d
+        let (d, _) := rebuildList false post o3.states d
+        ⟨.ok (), o1.created + o2.created + o3.created, (serializeKids d root).getD [], d.errs⟩
+
+/-- the client-built twin -/
+def runFragCsr (tag : String) (pre itemsA itemsB post : List View) : List Dom.Tree × List String :=
+  let (d, root) := ({} : Dom).createElement "div"
+  let (d, el) := d.createElement tag
+  let (d, s1) := buildList pre d
+  let (d, s2) := buildList itemsA d
+  let (d, s3) := buildList post d
+  let d := mountList s3 (mountList s2 (mountList s1 d el none) el none) el none
+  let d := d.insertNode root el none
+  let (d, _) := rebuildList false pre s1 d
+  let (d, _) := rebuildFrag itemsB ⟨s2, some el⟩ d
+  let (d, _) := rebuildList false post s3 d
+  ((serializeKids d root).getD [], d.errs)
+
+def fragLikeCsr (old : Bool) (ts : List HTree) (tag : String) (pre itemsA itemsB post : List View) : Bool :=
+  let h := runFragHydrated old ts tag pre itemsA itemsB post
+  let c := runFragCsr tag pre itemsA itemsB post
+  match h.outcome with
+  | .ok _ => h.created == 0 && h.errs.isEmpty && c.2.isEmpty && treesBeq (stripL h.kids) (stripL c.1)
+  | .error _ => false
+
 /-! ## the two runs the property compares -/
 
 /-- SSR of `a`, parsed, loaded below a root, hydrated with `a`, rebuilt with `b`:
@@ -584,9 +730,18 @@ structure HydRun where
 
 def runHydrated (ts : List HTree) (a b : View) : HydRun :=
   let (d, root, _) := loadRoot ts
-  match hydrateFrom d root a with
+  match hydrateDom d root a with
   | .error e => ⟨.error e, 0, serializeKids d root⟩
-  | .ok o =>
+  | .ok (o, d) =>
+    let (d', _) := rebuild false b o.state d
+    ⟨.ok (), o.created, serializeKids d' root⟩
+
+/-- the same run before the repair of F-C05-1 -/
+def runHydratedOld (ts : List HTree) (a b : View) : HydRun :=
+  let (d, root, _) := loadRoot ts
+  match hydrateDomOld d root a with
+  | .error e => ⟨.error e, 0, serializeKids d root⟩
+  | .ok (o, d) =>
     let (d', _) := rebuild false b o.state d
     ⟨.ok (), o.created, serializeKids d' root⟩
 
@@ -598,11 +753,15 @@ def runCsr (a b : View) : Option (List Dom.Tree) :=
   let (d, _) := rebuild false b st d
   serializeKids d root
 
-/-- the property's oracle on one pair of views -/
-def likeCsr (ts : List HTree) (a b : View) : Bool :=
-  let h := runHydrated ts a b
+def likeCsrOf (h : HydRun) (a b : View) : Bool :=
   match h.outcome, h.kids, runCsr a b with
   | .ok _, some k1, some k2 => h.created == 0 && treesBeq (stripL k1) (stripL k2)
   | _, _, _ => false
+
+/-- the property's oracle on one pair of views -/
+def likeCsr (ts : List HTree) (a b : View) : Bool := likeCsrOf (runHydrated ts a b) a b
+
+/-- the oracle on the code before the repair of F-C05-1 -/
+def likeCsrOld (ts : List HTree) (a b : View) : Bool := likeCsrOf (runHydratedOld ts a b) a b
 
 end Leptos.Hydrate
